@@ -20,7 +20,7 @@ from ..recipes import gen as G
 from ..recipes import ref as R
 
 LEVEL = "exploration"
-BUDGET_S = {"quick": 75, "thorough": 1500}
+BUDGET_S = {"quick": 420, "thorough": 1500}
 N_RANDOM = {"quick": 2000, "thorough": 50000}
 
 _x, _y, _a, _b = ["vec", "x"], ["vec", "y"], ["var", "a"], ["var", "b"]
